@@ -1,5 +1,6 @@
 """C01 - Bash target preserves scalar expression and control-flow semantics."""
 import corpus
+import comprun
 import progflow
 from vlib import avoid_tags
 
@@ -22,5 +23,6 @@ def run(ctx):
     gen = progflow.generate(ctx, "scalar", n)
     failures += progflow.judge(ctx, gen, "gen")
     failures += corpus.judge(ctx, "C01")
+    failures += comprun.judge(ctx, False)
     progflow.report(ctx, failures)
     return ctx.finish(rule=RULE, assumptions=ASSUME)
